@@ -132,6 +132,7 @@ class TreeScanningGateRemovalPass(ScanningGateRemovalPass):
         orig_num_cycles: int,
         circuit_copy: Circuit,
         cycle_and_ops: list[tuple[int, Operation]],
+        start_from_left: bool = True,
     ) -> list[Circuit]:
         """
         Generate all circuits to be instantiated in the tree scan.
@@ -146,6 +147,11 @@ class TreeScanningGateRemovalPass(ScanningGateRemovalPass):
             cycle_and_ops: list[(int, Operation)]: The next chunk
             of operations to be considered for deletion.
 
+            start_from_left (bool): The direction of the scan. Only when
+            scanning from the left do previous deletions shift the cycle
+            indices of the operations still to be considered.
+            (Default: True)
+
         Returns:
             list[Circuit]: A list of 2^(`tree_depth`) - 1 circuits
             that remove up to `tree_depth` operations. The circuits
@@ -155,7 +161,10 @@ class TreeScanningGateRemovalPass(ScanningGateRemovalPass):
         for cycle, op in cycle_and_ops:
             new_circs = []
             for circ in all_circs:
-                idx_shift = orig_num_cycles - circ.num_cycles
+                # Deletions to the right do not move the remaining cycles
+                idx_shift = 0
+                if start_from_left:
+                    idx_shift = orig_num_cycles - circ.num_cycles
                 new_cycle = cycle - idx_shift
                 work_copy = circ.copy()
                 work_copy.pop((new_cycle, op.location[0]))
@@ -193,7 +202,7 @@ class TreeScanningGateRemovalPass(ScanningGateRemovalPass):
             ops_left = ops_left[self.tree_depth:]
 
             all_circs = TreeScanningGateRemovalPass.get_tree_circs(
-                circuit.num_cycles, circuit_copy, chunk,
+                circuit.num_cycles, circuit_copy, chunk, self.start_from_left,
             )
 
             _logger.debug(
